@@ -616,7 +616,7 @@ fn gen_mutation(r: &mut Rng, len: usize, structured: bool) -> Mutation {
     }
 }
 
-fn gen_case(cs: u64, tier: Tier) -> Case {
+fn gen_case(cs: u64, tier: Tier, ctx: &ExecCtx) -> Case {
     let mut r = Rng::new(cs);
     let names = fixture_names();
     let base = match r.below(20) {
@@ -643,7 +643,17 @@ fn gen_case(cs: u64, tier: Tier) -> Case {
         Base::Random { len, .. } => *len,
         _ => 4096,
     };
-    let len_for_pos = build_base(&base).map(|b| b.len()).unwrap_or(approx_len);
+    // the base may be produced by library code (the writer): run it under an owned environment,
+    // or the real clock (dates inside compressed streams) would leak into the generated case
+    let len_for_pos = {
+        let b2 = base.clone();
+        let o = in_case_thread(ctx, &ProcEnv::fixed(mix(cs, 0x6c656e)), 120_000, move |out| {
+            if let Ok(b) = build_base(&b2) {
+                out.bump("len", b.len() as u64);
+            }
+        });
+        o.counters.get("len").map(|l| *l as usize).unwrap_or(approx_len)
+    };
     // swarm: per case either no stored fault (the intact corpus file) or 1–4 of them
     let nm = match r.below(10) {
         0 => 0,
@@ -811,8 +821,8 @@ impl Property for C01 {
             Tier::Thorough => 1_200_000,
         }
     }
-    fn gen(&self, cs: u64, tier: Tier, _ctx: &ExecCtx) -> Value {
-        serde_json::to_value(gen_case(cs, tier)).unwrap()
+    fn gen(&self, cs: u64, tier: Tier, ctx: &ExecCtx) -> Value {
+        serde_json::to_value(gen_case(cs, tier, ctx)).unwrap()
     }
     fn exec(&self, case: &Value, ctx: &ExecCtx) -> Outcome {
         let c: Case = match serde_json::from_value(case.clone()) {
